@@ -3,6 +3,8 @@ import FuModel.Xargs.Read
 import FuModel.Xargs.Opts
 import FuModel.Pred.C05
 import FuModel.Pred.C04
+import FuModel.Pred.C19
+import FuModel.Pred.C20
 
 namespace FuModel.Drv.Xargs
 open FuModel.Wire FuModel.Xargs
@@ -141,6 +143,35 @@ def predC04 (req obs : List String) : Option Bool :=
     let sys ← sys.toNat?
     match parseRunObs obs with
     | some (st, avs) => pure (FuModel.Pred.C04.pred os cmd inp sys st avs)
+    | none => pure false
+  | _ => none
+
+end FuModel.Drv.Xargs
+
+namespace FuModel.Drv.Xargs
+open FuModel.Wire FuModel.Xargs
+
+def predC19 (req obs : List String) : Option Bool :=
+  match req with
+  | ["xargs-run", opts, cmd, input, script, sys] => do
+    let os ← (splitList opts).mapM parseOpt
+    let cmd ← bytesListOfHex cmd
+    let inp ← bytesOfHex input
+    let sc ← (splitList script).mapM parseOutcome
+    let sys ← sys.toNat?
+    match parseRunObs obs with
+    | some (st, avs) => pure (FuModel.Pred.C19.pred os cmd inp sys sc st avs)
+    | none => pure false
+  | _ => none
+
+def predC20 (req obs : List String) : Option Bool :=
+  match req with
+  | ["xargs-run", opts, cmd, input, _script, _sys] => do
+    let os ← (splitList opts).mapM parseOpt
+    let cmd ← bytesListOfHex cmd
+    let inp ← bytesOfHex input
+    match parseRunObs obs with
+    | some (st, avs) => pure (FuModel.Pred.C20.pred os cmd inp st avs)
     | none => pure false
   | _ => none
 
